@@ -2,6 +2,8 @@ import M3d.Basic
 import M3d.Model.Surface
 import M3d.Model.Param
 import M3d.Model.ParamExt
+import M3d.Model.ParamSparse
+import M3d.Model.ParamCG
 import Std.Data.HashMap
 /-!
 Line-protocol handler for C18.  Core-only.
@@ -43,6 +45,17 @@ Line-protocol handler for C18.  Core-only.
     ext    F MD d ST v T n tris P n (x y z)* B n (x y)*   (hex floats)
            → the boundary vertices `id x y` after `extendBoundary` at `Float` (faithful model of the loop,
              bit for bit; validates the model the theorems are about)
+    sparse Q|F N n P p OPS k (row col value)* X n values Y n values PERM n ints
+           → what the model `M3d.Sparse.SM` of `numerical.SparseMatrix` gives for the same `Set` calls (rows of any
+             length, any order): `Apply(X)` after the first `p` calls and after all of them, `ApplyVec2`, the rows as
+             `Iterate` enumerates them, `Transpose()` (rows and `Apply`), `Permute(PERM)` (rows and `Apply`); exact
+             rationals for `Q` (dyadic data: every Go operation is exact, so the answer is the mathematical
+             `A·x` of `sparse_rows_independent`), bit for bit at `Float` for `F` (same operations in the same order)
+    cg     F N n OPS k (row col value)* B n values G g values MAXIT m MSE t MAE t IT j   (hex floats)
+           → `S` the vector `BiCGSTABSolver{m, t, t}.SolveLinearSystem(matrix.Apply, B, G)` returns (or `panic` for
+             its NaN panic) and `I` the solutions after 1..j calls of `BiCGSTAB.Iter()`: the model `M3d.CG` over the
+             model `M3d.Sparse.SM`, same operations in the same order at `Float`, bit for bit (NaN printed as `nan`);
+             validates the model `bicgstab_residual_invariant` / `bicgstab_solver_returns_an_iterate` are about
     mapfn  E|N Q p WANT w R q U uv-triangle P 3d-triangle → `ok` iff the returned triangle
            contains `p` and `q` is the barycentric interpolation (= `WANT`); exact for `E`,
            within 1e-7 for `N` (float arithmetic: validation)
@@ -653,6 +666,101 @@ def handleExt (ws : Toks) : Option String :=
   | "F" :: r => handleExtF r
   | _ => none
 
+/-! ### sparse: `numerical.SparseMatrix` -/
+
+open M3d.Sparse in
+def sparseOut {α : Type} [Add α] [Mul α] [OfNat α 0] (parse : String → Option α) (render : α → String) (ws : Toks) :
+    Option String := do
+  match ws with
+  | "N" :: n :: "P" :: p :: rest =>
+    let n ← n.toNat?
+    let p ← p.toNat?
+    let (ops, r) ← takeN "OPS" rest 3
+    let (xs, r) ← takeN "X" r
+    let (ys, r) ← takeN "Y" r
+    let (pm, _) ← takeN "PERM" r
+    let rec parseOps : Toks → Option (List (Nat × Nat × α))
+      | [] => some []
+      | a :: b :: v :: t => do
+        let a ← a.toNat?
+        let b ← b.toNat?
+        let v ← parse v
+        let l ← parseOps t
+        some ((a, b, v) :: l)
+      | _ => none
+    let ops ← parseOps ops
+    let x ← xs.mapM parse
+    let y ← ys.mapM parse
+    let perm ← pm.mapM (·.toNat?)
+    let vec := fun (l : List α) => " ".intercalate (l.map render)
+    let rowsOf := fun (m : SM α) =>
+      ";".intercalate ((List.range m.size).map fun i =>
+        ",".intercalate ((m.entries i).map fun cv => s!"{cv.1}:{render cv.2}"))
+    let m1 := SM.build n (ops.take p)
+    let m := SM.build n ops
+    let t := m.transpose
+    let pmx := m.permute perm
+    some (" | ".intercalate [
+      "A1 " ++ vec (m1.apply x),
+      "A " ++ vec (m.apply x),
+      "V " ++ " ".intercalate ((m.applyV2 (x.zip y)).map fun q => s!"{render q.1} {render q.2}"),
+      "I " ++ rowsOf m,
+      "T " ++ rowsOf t,
+      "TA " ++ vec (t.apply x),
+      "PM " ++ rowsOf pmx,
+      "PA " ++ vec (pmx.apply x)])
+  | _ => none
+
+def handleSparse (ws : Toks) : Option String :=
+  match ws with
+  | "Q" :: r => sparseOut (α := Rat) parseRat showRat r
+  | "F" :: r => sparseOut (α := Float) floatOfHex hexOfFloat r
+  | _ => none
+
+/-! ### cg: `numerical.BiCGSTAB` at `Float`, bit for bit -/
+
+def hexOrNaN (x : Float) : String := if x.isNaN then "nan" else hexOfFloat x
+
+open M3d.Sparse M3d.CG in
+def handleCG (ws : Toks) : Option String := do
+  match ws with
+  | "F" :: "N" :: n :: rest =>
+    let n ← n.toNat?
+    let (ops, r) ← takeN "OPS" rest 3
+    let (bs, r) ← takeN "B" r
+    let (gs, r) ← takeN "G" r
+    match r with
+    | ["MAXIT", m, "MSE", mse, "MAE", mae, "IT", j] =>
+      let m ← m.toNat?
+      let j ← j.toNat?
+      let mse ← floatOfHex mse
+      let mae ← floatOfHex mae
+      let rec parseOps : Toks → Option (List (Nat × Nat × Float))
+        | [] => some []
+        | a :: b :: v :: t => do
+          let a ← a.toNat?
+          let b ← b.toNat?
+          let v ← floatOfHex v
+          let l ← parseOps t
+          some ((a, b, v) :: l)
+        | _ => none
+      let ops ← parseOps ops
+      let b ← bs.mapM floatOfHex
+      let g ← gs.mapM floatOfHex
+      let guess : Option (List Float) := if gs.isEmpty then none else some g
+      let mat := SM.build n ops
+      let op := fun (v : List Float) => mat.apply v
+      let o : VOps Float (List Float) := listOps Float.abs Float.ofNat
+      let vec := fun (l : List Float) => " ".intercalate (l.map hexOrNaN)
+      let sol := match solve o Float.isNaN (fun a b => a < b) op b guess m mse mae (mse != 0 || mae != 0) with
+        | none => "panic"
+        | some v => vec v
+      let st0 := init o op b guess
+      let its := (List.range j).map fun i => vec (iterN o op (i + 1) st0).x
+      some ("S " ++ sol ++ " | I " ++ " ; ".intercalate its)
+    | _ => none
+  | _ => none
+
 def handleAll (ws : List String) : Option String :=
   match ws with
   | "grow" :: r => handleGrow r
@@ -667,6 +775,8 @@ def handleAll (ws : List String) : Option String :=
   | "hist" :: r => handleHist r
   | "near" :: r => handleNear r
   | "ext" :: r => handleExt r
+  | "sparse" :: r => handleSparse r
+  | "cg" :: r => handleCG r
   | _ => none
 
 end M3d.Drv.C18
